@@ -370,7 +370,8 @@ char *sasl_digest_md5(xmpp_ctx_t *ctx,
     result = _add_key(ctx, table, "qop", result, 0);
     result = _add_key(ctx, table, "digest-uri", result, 1);
     result = _add_key(ctx, table, "response", result, 0);
-    result = _add_key(ctx, table, "charset", result, 0);
+    if (hash_get(table, "charset"))
+        result = _add_key(ctx, table, "charset", result, 0);
 
     strophe_free(ctx, node);
     strophe_free(ctx, domain);
